@@ -300,8 +300,6 @@ func runCombo(ms []int, iters int, seed int64) (calls, overlaps int64, panics []
 var setFrameRe = regexp.MustCompile(`hive\.go/ds\.\(\*(set|readableSet)\[[^\]]*\]\)\.([A-Za-z]+)`)
 var mapFrameRe = regexp.MustCompile(`hive\.go/ds/orderedmap\.\(\*OrderedMap\[[^\]]*\]\)\.([A-Za-z]+)`)
 
-var takesApplyMutex = map[string]bool{"Add": true, "AddAll": true, "Delete": true, "DeleteAll": true, "Apply": true, "Compute": true, "Replace": true}
-
 // deadlockFingerprint derives a stable class name from the goroutine dump of a
 // dead-locked process: a goroutine that waits for a read lock while one of its own
 // outer frames already holds it is named by the chain of Set methods (e.g.
@@ -318,7 +316,7 @@ func deadlockFingerprint(gs []gdump.G) (fp string, desc string) {
 				if outer == "" {
 					outer = "Set." + m[2]
 				}
-				if takesApplyMutex[m[2]] && (len(chain) == 0 || chain[len(chain)-1] != m[2]) {
+				if m[2] != "apply" && m[2] != "ReadOnly" && (len(chain) == 0 || chain[len(chain)-1] != m[2]) {
 					chain = append(chain, m[2])
 				}
 			} else if m := mapFrameRe.FindStringSubmatch(f); m != nil && outer == "" {
@@ -333,8 +331,10 @@ func deadlockFingerprint(gs []gdump.G) (fp string, desc string) {
 		if outer == "" || !g.Parked() {
 			continue
 		}
-		if lock == "RLock" && len(chain) >= 2 {
-			reentrant = append(reentrant, strings.Join(chain, ">"))
+		if (lock == "RLock" || lock == "Lock") && len(chain) >= 2 {
+			// every method defined on *set itself takes applyMutex: one of them below another one on the same stack
+			// waits for a lock its own caller holds (or, across two sets, holds one set's lock while taking the other's)
+			reentrant = append(reentrant, lock+":"+strings.Join(chain, ">"))
 		}
 		parts = append(parts, fmt.Sprintf("%s[%s]", outer, lock))
 	}
@@ -342,7 +342,7 @@ func deadlockFingerprint(gs []gdump.G) (fp string, desc string) {
 	desc = strings.Join(parts, " + ")
 	if len(reentrant) > 0 {
 		sort.Strings(reentrant)
-		return "deadlock:reentrant-applyMutex.RLock:" + reentrant[0], desc
+		return "deadlock:reentrant-applyMutex." + reentrant[0], desc
 	}
 	uniq := parts[:0:0]
 	for i, p := range parts {
@@ -702,6 +702,8 @@ func checkHistory(kind string, h []hop) bool {
 		model = atomicModel
 	case "hist-set":
 		model = setKeyModel
+	case "hist-diff":
+		model = diffKeyModel
 	default:
 		model = mapKeyModel
 	}
@@ -712,6 +714,7 @@ var histFP = map[string]string{
 	"hist-atomic": "atomicity:apply-compute-replace-not-serializable",
 	"hist-set":    "linearizability:set-add-delete-has",
 	"hist-map":    "linearizability:orderedmap-set-get-has-delete",
+	"hist-diff":   "conservation:reported-diffs-not-consistent-per-element",
 }
 
 // linzChild runs n histories of each kind.
@@ -719,7 +722,7 @@ func linzChild(c *vf.Ctx, idx, n int) {
 	var halfSeen, views atomic.Int64
 	for i := 0; i < n; i++ {
 		seed := c.Seed*1000003 + int64(idx)*100003 + int64(i)
-		for _, kind := range []string{"hist-atomic", "hist-set", "hist-map"} {
+		for _, kind := range []string{"hist-atomic", "hist-set", "hist-map", "hist-diff"} {
 			var h []hop
 			var ik, iw string
 			structure := "set"
@@ -732,6 +735,8 @@ func linzChild(c *vf.Ctx, idx, n int) {
 				}
 			case "hist-set":
 				h, ik, iw = setKeyHistory(seed)
+			case "hist-diff":
+				h, ik, iw = diffHistory(seed)
 			default:
 				structure = "orderedmap"
 				h, ik, iw = mapKeyHistory(seed)
